@@ -89,7 +89,7 @@ class Build:
 def run(tier, seed):
     n = 30 if tier == "quick" else 400
     progs = common.gen_programs(n // 2, seed, vars=3) + common.gen_programs(n - n // 2, seed + 9, vars=3, externals=1.5)
-    return runner.run_relational(
+    nviol = runner.run_relational(
         "C08", progs, Build(tier, seed), tier, seed, "model_checking",
         rule="generated programs (half with safe and unsafe bound externals, all with observers) x explored paths x "
              "{pause after every step, random budgets, one pause at each step position of a line with the guarded calls "
@@ -98,3 +98,7 @@ def run(tier, seed):
         ex_kw=dict(depth=3 if tier == "quick" else 5, max_paths=8 if tier == "quick" else 40),
         case_kw=dict(cmpval=False),
         assumptions=["virtual clock hook: a slice ends after N interpreter steps instead of after N milliseconds"])
+    # the same property against the executable model of the host interface (absolute oracle, Tier-S programs)
+    import hostmodel
+    nviol += hostmodel.check("C08", "slices", tier, seed)
+    return nviol
